@@ -635,8 +635,15 @@ func (b *Builder) BAnd(x, y *Term) *Term {
 			k := uint8(bits.Len64(y.K))
 			return b.ZExt(b.Extract(x, k-1, 0), x.W)
 		}
-		if x.Op == OpZExt && y.K >= mask(x.A[0].W) && y.K&mask(x.A[0].W) == mask(x.A[0].W) {
-			return x
+		if x.Op == OpZExt {
+			in := x.A[0]
+			if y.K&mask(in.W) == mask(in.W) {
+				return x
+			}
+			if y.K&mask(in.W) == 0 {
+				return Const(x.W, 0)
+			}
+			return b.ZExt(b.BAnd(in, Const(in.W, y.K)), x.W)
 		}
 		return b.mk(OpBAnd, x.W, 0, x, y, nil)
 	}
